@@ -8,6 +8,7 @@ import (
 	"path/filepath"
 	"strings"
 
+	"github.com/aml-org/amf-custom-validator/internal/parser/profile"
 	"github.com/aml-org/amf-custom-validator/internal/validator"
 	v "github.com/aml-org/amf-custom-validator/internal/zzverif"
 )
@@ -264,4 +265,82 @@ func dropDate(s string) string {
 		}
 	}
 	return strings.Join(out, "\n")
+}
+
+// witness inputs whose encodings differ between encoder settings and formatting helpers: markup
+// characters, quotes, backslashes, percent signs, non-ASCII text, numbers not in canonical form
+var verifC18Docs = []string{
+	`{"@id": "http://x/a", "@type": "http://a.ml/vocabularies/apiContract#EndPoint", "http://a.ml/vocabularies/core#name": "a <b> & \"c\" 100% \\ é 漢"}`,
+	`{"@id": "http://x/a?q=1&r=<2>", "http://example.org/n": [12.50, 1e3, 9007199254740993, true, null]}`,
+	`[]`,
+}
+
+var verifC18Profiles = []string{
+	"#%Validation Profile 1.0\nprofile: \"T <1> & 100% \\\\ é\"\nviolation:\n  - v1\nvalidations:\n  v1:\n    message: \"m <b> & %d {{core.name}}\"\n    targetClass: apiContract.EndPoint\n    propertyConstraints:\n      core.description:\n        minCount: 1\n        pattern: \"^<&>%s$\"\n",
+}
+
+// VerifC18NormalizeNative: `acv normalize` of the witness documents prints exactly the library's
+// encoding of the library's normalisation; undecodable data gives a failure without stdout.
+func VerifC18NormalizeNative() {
+	dir, err := os.MkdirTemp("", "verifc18n")
+	if err != nil {
+		panic(err)
+	}
+	defer os.RemoveAll(dir)
+	acv := v.BuildACV(dir)
+	df := filepath.Join(dir, "d.jsonld")
+	if v.ReplayBool("libErr") {
+		os.WriteFile(df, []byte("{\"@context\": 42"), 0o644)
+		so, _, code := v.RunCmd(dir, acv, "normalize", df)
+		v.Assert("C18.exit-nonzero-on-failure", code != 0)
+		v.Assert("C18.no-stdout-on-failure", so == "")
+		return
+	}
+	for _, doc := range verifC18Docs {
+		os.WriteFile(df, []byte(doc), 0o644)
+		res, lerr := validator.ProcessInput(doc, false, nil)
+		if lerr != nil {
+			panic(lerr)
+		}
+		so, _, code := v.RunCmd(dir, acv, "normalize", df)
+		v.Assert("C18.stdout-exact", so == validator.Encode(res)+"\n")
+		v.Assert("C18.exit-zero", code == 0)
+	}
+}
+
+// VerifC18GenerateNative: `acv generate` prints exactly the policy the library generates in a
+// fresh process; an untranslatable profile gives a failure without stdout.
+func VerifC18GenerateNative() {
+	dir, err := os.MkdirTemp("", "verifc18g")
+	if err != nil {
+		panic(err)
+	}
+	defer os.RemoveAll(dir)
+	acv := v.BuildACV(dir)
+	pf := filepath.Join(dir, "p.yaml")
+	if v.ReplayBool("libErr") {
+		os.WriteFile(pf, []byte("profile: [unclosed"), 0o644)
+		so, _, code := v.RunCmd(dir, acv, "generate", pf)
+		v.Assert("C18.exit-nonzero-on-failure", code != 0)
+		v.Assert("C18.no-stdout-on-failure", so == "")
+		return
+	}
+	root := v.RepoRoot()
+	texts := append([]string{}, verifC18Profiles...)
+	for _, f := range []string{"test/data/integration/profile1/profile.yaml", "test/data/integration/profile10/profile.yaml"} {
+		if b, rerr := os.ReadFile(filepath.Join(root, f)); rerr == nil {
+			texts = append(texts, string(b))
+		}
+	}
+	for _, text := range texts {
+		os.WriteFile(pf, []byte(text), 0o644)
+		profile.GenReset()
+		unit, lerr := validator.GenerateRego(text, false, nil)
+		if lerr != nil {
+			panic(lerr)
+		}
+		so, _, code := v.RunCmd(dir, acv, "generate", pf)
+		v.Assert("C18.stdout-exact", so == unit.Code+"\n")
+		v.Assert("C18.exit-zero", code == 0)
+	}
 }
